@@ -8,6 +8,7 @@ Uses a scratch worktree (VERIF_SCRATCH, default /tmp/vscratch) through VERIF_REP
 import json, os, shutil, subprocess, sys, time
 HERE = os.path.dirname(os.path.abspath(__file__)); VERIF = os.path.dirname(HERE)
 SCRATCH = os.environ.get("VERIF_SCRATCH", "/tmp/vscratch")
+HOLD = "/tmp/seed_demo_hold_%d.rs" % os.getpid()
 ALLF = "batteries_included,v1_local,v2_local,v3_local,v4_local,v1_public,v2_public,v3_public,v4_public"
 ALL_CHECKS = ["C01","C02","C03","C04","C05","C06","C07","C08","C09","C10","C11","C12","C13","C14","C15","C16","C17","C18"]
 
@@ -87,11 +88,11 @@ def confirm(pid, which, checks=None, stored=False):
     b2 = sh("cd %s && cargo build --offline --no-default-features --features %s 2>&1 | tail -3" % (SCRATCH, ALLF))
     meta["confirmation"]["builds_default_features"] = "Finished" in b1.stdout
     meta["confirmation"]["builds_all_features"] = "Finished" in b2.stdout
-    shutil.move(os.path.join(SCRATCH, "tests", "seed_demo.rs"), "/tmp/seed_demo_hold.rs")
+    shutil.move(os.path.join(SCRATCH, "tests", "seed_demo.rs"), HOLD)
     t = sh("cd %s && cargo nextest run --workspace --no-fail-fast --test-threads 8 --offline 2>&1 | tail -3" % SCRATCH)
     meta["confirmation"]["pinned_tests"] = t.stdout.strip().splitlines()[-1] if t.stdout.strip() else t.stderr[-200:]
     meta["confirmation"]["pinned_tests_pass"] = "36 passed" in t.stdout
-    shutil.move("/tmp/seed_demo_hold.rs", os.path.join(SCRATCH, "tests", "seed_demo.rs"))
+    shutil.move(HOLD, os.path.join(SCRATCH, "tests", "seed_demo.rs"))
     ok_mut, out_mut = demo()
     meta["confirmation"]["demo_fails_with_change"] = not ok_mut
     os.remove(os.path.join(SCRATCH, "tests", "seed_demo.rs"))
